@@ -8,7 +8,6 @@ import (
 	"sync"
 	"time"
 
-
 	"github.com/tendermint/tendermint/crypto"
 	"github.com/tendermint/tendermint/evidence"
 	sm "github.com/tendermint/tendermint/state"
